@@ -1,4 +1,160 @@
+/-
+C04 — queries stay inside the selected lexicons and ignore unrelated ones.
+Theorems over the query layer (`Model/Query.lean`, `Model/Api.lean`) for every database
+(no assumption on how it was built).
+-/
 import WnVerif.Model.Api
+import WnVerif.Lemmas.DbAux
 namespace WnVerif.Props.C04
-theorem placeholder_true : True := trivial
+open WnVerif.Db
+
+theorem mem_inLexOrAll (lexids : List Nat) (h : lexids ≠ []) (l : Nat) : inLexOrAll lexids l = true ↔ l ∈ lexids := by
+  unfold inLexOrAll
+  have : lexids.isEmpty = false := by simpa [List.isEmpty_iff] using h
+  simp [this]
+
+/-- words(), word(id), words(form): every returned word is owned by a selected lexicon -/
+theorem C04_inside_entries (db : Db) (id : Option String) (forms : List String) (pos : Option String)
+    (lexids : List Nat) (hne : lexids ≠ []) (n a : Bool) (w : WordData)
+    (h : w ∈ findEntries db id forms pos lexids n a) : w.lex ∈ lexids := by
+  unfold findEntries at h
+  simp only [List.mem_filterMap] at h
+  obtain ⟨e, he, hw⟩ := h
+  rw [mem_sortBy] at he
+  simp only [List.mem_filter, Bool.and_eq_true] at he
+  have hl := (mem_inLexOrAll lexids hne e.lex).mp he.2.2
+  split at hw
+  · simp at hw
+  · simp at hw; subst hw; exact hl
+
+/-- senses(): every returned sense is owned by a selected lexicon -/
+theorem C04_inside_senses (db : Db) (id : Option String) (forms : List String) (pos : Option String)
+    (lexids : List Nat) (hne : lexids ≠ []) (n a : Bool) (s : SenseData)
+    (h : s ∈ findSenses db id forms pos lexids n a) : s.lex ∈ lexids := by
+  unfold findSenses at h
+  simp only [List.mem_filterMap, List.mem_filter, Bool.and_eq_true] at h
+  obtain ⟨r, ⟨_, hr⟩, hs⟩ := h
+  have hl := (mem_inLexOrAll lexids hne r.lex).mp hr.2
+  unfold senseData at hs
+  split at hs
+  · simp at hs; subst hs; exact hl
+  · simp at hs
+
+/-- synsets() without a form: every returned synset is owned by a selected lexicon -/
+theorem C04_inside_synsets (db : Db) (id pos ili : Option String) (lexids : List Nat) (hne : lexids ≠ [])
+    (n a : Bool) (y : SynsetData) (h : y ∈ findSynsets db id [] pos ili lexids n a) : y.lex ∈ lexids := by
+  unfold findSynsets at h
+  simp only [List.isEmpty_nil, if_true, List.mem_map, List.mem_filter, Bool.and_eq_true] at h
+  obtain ⟨r, ⟨_, hr⟩, rfl⟩ := h
+  exact (mem_inLexOrAll lexids hne r.lex).mp hr.2
+
+/-- senses of a word / members of a synset come from the lexicons in scope only -/
+theorem C04_inside_entry_senses (db : Db) (entry : Nat) (lexids : List Nat) (s : SenseData)
+    (h : s ∈ entrySenses db entry lexids) : s.lex ∈ lexids := by
+  unfold entrySenses at h
+  simp only [List.mem_filterMap] at h
+  obtain ⟨r, hr, hs⟩ := h
+  rw [mem_sortBy] at hr
+  simp only [List.mem_filter, Bool.and_eq_true, inLex, List.contains_iff_mem] at hr
+  unfold senseData at hs
+  split at hs
+  · simp at hs; subst hs; exact hr.2.2
+  · simp at hs
+
+theorem C04_inside_synset_members (db : Db) (synset : Nat) (lexids : List Nat) (s : SenseData)
+    (h : s ∈ synsetMembers db synset lexids) : s.lex ∈ lexids := by
+  unfold synsetMembers at h
+  simp only [List.mem_filterMap] at h
+  obtain ⟨r, hr, hs⟩ := h
+  rw [mem_sortBy] at hr
+  simp only [List.mem_filter, Bool.and_eq_true, inLex, List.contains_iff_mem] at hr
+  unfold senseData at hs
+  split at hs
+  · simp at hs; subst hs; exact hr.2.2
+  · simp at hs
+
+/-- relation targets: both the relation and its target are owned by lexicons in scope -/
+theorem C04_inside_synset_relations (db : Db) (sources : List Nat) (types : List String) (lexids : List Nat)
+    (r : RelData SynsetData) (h : r ∈ synsetRelations db sources types lexids) :
+    r.target.lex ∈ lexids ∧ ∃ row ∈ db.synrels, row.lex ∈ lexids ∧ row.source = r.source ∧ lexSpec db row.lex = r.lexicon := by
+  unfold synsetRelations at h
+  have h' := mem_dedupBy _ _ r h
+  simp only [List.mem_filterMap] at h'
+  obtain ⟨row, hrow, hr⟩ := h'
+  split at hr
+  · rename_i hc
+    simp only [Bool.and_eq_true, inLex, List.contains_iff_mem] at hc
+    split at hr
+    · rename_i n tgt _ _
+      split at hr
+      · rename_i ht
+        simp only [inLex, List.contains_iff_mem] at ht
+        simp at hr; subst hr
+        exact ⟨ht, row, hrow, hc.2, rfl, rfl⟩
+      · simp at hr
+    · simp at hr
+  · simp at hr
+
+/-- in a restricted Wordnet every entity uses exactly the Wordnet's lexicons as its scope;
+in default mode its own lexicon, its bases and its extensions -/
+theorem C04_scope (db : Db) (w : Wordnet) (lex : Nat) :
+    entityLexids db w lex =
+      if w.defaultMode then [lex] ++ basesOf db (db.lexicons.length + 1) lex ++ extensionsOf db (db.lexicons.length + 1) lex
+      else w.lexids := by
+  unfold entityLexids; split <;> rfl
+
+/-- expanded relation targets are resolved back into the scope: a stored synset of the scope
+or the placeholder owned by the source's lexicon -/
+theorem C04_expanded_targets_in_scope (db : Db) (w : Wordnet) (x : SynsetData) (types : List String)
+    (e : RelData SynsetData × String × SynsetData) (h : e ∈ expandedSynsetRelations db w x types) :
+    e.2.2.lex ∈ entityLexids db w x.lex ∨ (e.2.2.id = "*INFERRED*" ∧ e.2.2.lex = x.lex) := by
+  unfold expandedSynsetRelations at h
+  split at h
+  · simp at h
+  · split at h
+    · simp at h
+    · simp only [List.mem_flatMap] at h
+      obtain ⟨r, _, hr⟩ := h
+      split at hr
+      · simp at hr
+      · split at hr
+        · simp at hr; subst hr; right; exact ⟨rfl, rfl⟩
+        · simp only [List.mem_map] at hr
+          obtain ⟨l, hl, rfl⟩ := hr
+          left
+          simp only [synsetsForIlis, List.mem_map, List.mem_filter, Bool.and_eq_true, inLex, List.contains_iff_mem] at hl
+          obtain ⟨row, ⟨_, _, hin⟩, rfl⟩ := hl
+          exact hin
+
+/-! ### the leak of known findings F12 / F13: tags, pronunciations and forms have no owner filter -/
+
+/-- kernel-checked witness (F12): the tags reported for a form do not depend on the selection at
+all — a tag row added for the base lemma by any other lexicon is reported -/
+theorem C04_frame_counterexample_tags (db : Db) (form : Nat) (t : RTag) (ht : t.form = form) :
+    formTags { db with tags := db.tags ++ [t] } form = formTags db form ++ [t] := by
+  simp [formTags, List.filter_append, ht]
+
+/-- … while every owner-filtered contribution of a lexicon outside the scope is invisible:
+examples, counts, definitions of lexicons not in `lexids` never appear -/
+theorem C04_examples_scoped (db : Db) (sense : Nat) (lexids : List Nat) (x : RExample)
+    (h : x ∈ senseExamples db sense lexids) : x.lex ∈ lexids := by
+  simp only [senseExamples, List.mem_filter, Bool.and_eq_true, inLex, List.contains_iff_mem] at h
+  exact h.2.2
+
+theorem C04_counts_scoped (db : Db) (sense : Nat) (lexids : List Nat) (x : RCount)
+    (h : x ∈ senseCounts db sense lexids) : x.lex ∈ lexids := by
+  simp only [senseCounts, List.mem_filter, Bool.and_eq_true, inLex, List.contains_iff_mem] at h
+  exact h.2.2
+
+/-- frame for examples: rows owned by a lexicon outside the scope do not change the answer -/
+theorem C04_frame_examples (db : Db) (sense : Nat) (lexids : List Nat) (extra : List RExample)
+    (hout : ∀ x ∈ extra, x.lex ∉ lexids) :
+    senseExamples { db with sensexs := db.sensexs ++ extra } sense lexids = senseExamples db sense lexids := by
+  simp only [senseExamples, List.filter_append]
+  have : extra.filter (fun x => x.owner == sense && inLex lexids x.lex) = [] := by
+    rw [List.filter_eq_nil_iff]
+    intro x hx
+    simp [inLex, hout x hx]
+  rw [this]; simp
+
 end WnVerif.Props.C04
